@@ -123,6 +123,6 @@ def kindsTotal (T : PTables) : Bool :=
     | .dflt => T.prodLen[p]?.getD 0 != 0
     | .nilEmpty => true
     | .user shape _ =>
-      shape == 1 || shape == 5 || ((shape == 2 || shape == 3) && T.prodLen[p]?.getD 0 != 0)
+      shape == 1 || shape == 5 || shape == 6 || ((shape == 2 || shape == 3) && T.prodLen[p]?.getD 0 != 0)
 
 end Gocc
